@@ -247,6 +247,7 @@ def histories_from_walks(cases, rng):
         steps, view = [], {}
         pend = None
         sticky = {} if rng.random() < 0.75 else None
+        draining = False
         again = None          # the first auto request on /sql (or flight) for a distributable class: re-issued verbatim after later environment steps
         for s in case["h"]:
             a = s["a"]
@@ -264,7 +265,10 @@ def histories_from_walks(cases, rng):
                 pend["cnt"] = 1 if pend["ep"] == "sql" else pend["cnt"]
             else:
                 steps.append(dict(s))
-                if again is not None and rng.random() < 0.6:
+                if a == "Drain":
+                    draining = True
+                # (Flight stops with the shutdown signal: the spec never sends a flight / both request to a draining node)
+                if again is not None and rng.random() < 0.6 and not (draining and again["ep"] in ("flight", "both")):
                     r2 = copy.deepcopy(again)
                     r2["dies"] = []
                     r2["cnt"] = 1 if r2["ep"] == "sql" else r2["cnt"]
